@@ -1,11 +1,10 @@
 (* C13 — deserialisers and validate() are safe on arbitrary input.
    Model: Model/Serial.v (step-faithful: every index / parse / narrowing of the Rust is an explicit Panic / RErr outcome).
-   Not proved here: "model counting agrees with evaluation" for accepted diagrams — it is a statement about
-   exact_cardinality, which belongs to C09's model and needs only `wf b`, which the soundness theorems below provide;
-   the correspondence check of this property compares exact_cardinality with the enumeration on every accepted value. *)
+   "Model counting agrees with evaluation" for accepted diagrams is C13_accepted_counts (C09's exact_cardinality_spec needs
+   only `wf b`); the correspondence check additionally compares exact_cardinality with the enumeration on every accepted value. *)
 From Coq Require Import List NArith Bool. Import ListNotations.
 From BddVerif Require Import Model.Bdd Model.Apply Model.Serial Proofs.Sem Proofs.Canon Proofs.ApplyTop
-  Proofs.SerialIO Proofs.SerialBytes Proofs.SerialText Proofs.SerialNodes.
+  Proofs.SerialIO Proofs.SerialBytes Proofs.SerialText Proofs.SerialNodes Model.Count Proofs.CountSem.
 Open Scope N_scope.
 
 (* ---- never a panic (and the loops never run out of the fuel the model gives them), for ALL inputs and ALL schedules *)
@@ -56,6 +55,12 @@ Theorem C13_accepted_operators : forall a b op, wf a -> wf b -> nvars a = nvars 
     forall v, eval r v = bop_of op (eval a v) (eval b v).
 Proof. exact wf_operators. Qed.
 Print Assumptions C13_accepted_operators.
+
+(* model counting agrees with evaluation on every accepted diagram (C09's theorem needs only wf) *)
+Theorem C13_accepted_counts : forall d b, from_nodes d = Ok (ROk b) ->
+  exact_cardinality b = count (nvars b) (eval b).
+Proof. intros d b H. apply exact_cardinality_spec. exact (proj2 (from_nodes_sound d b H)). Qed.
+Print Assumptions C13_accepted_counts.
 
 (* ---- numbers in accepted text are taken at face value: every accepted record has at least three fields, each of the
    first three is an optional '+' followed by ASCII digits whose UNBOUNDED decimal value is the stored number *)
